@@ -50,8 +50,73 @@ def showFull (chain : Spec.ChainParams) (r : Res Addr) : String :=
   | .error e => "err:" ++ e.family
   | .ok a => showAddr a ++ "|" ++ showRes String.ofList (toText H chain a) ++ "|" ++ showRes toHex (toScript chain a)
 
+def className : AddrClass → String
+  | .p2pkh => "P2PKHBitcoinAddress" | .p2sh => "P2SHBitcoinAddress"
+  | .p2wpkh => "P2WPKHBitcoinAddress" | .p2wsh => "P2WSHBitcoinAddress"
+
+/-- observers of one address instance under the currently selected chain, in the given order -/
+def observe (chain : Spec.ChainParams) (a : Addr) (obs : String) : String :=
+  joinWith "/" <| obs.toList.map fun o =>
+    match o with
+    | 's' => showRes String.ofList (toText H chain a)
+    | 'b' => toHex a.payload
+    | 'k' => showRes toHex (toScript chain a)
+    | 'v' => toString a.ver
+    | 'r' => showRes (fun t => className a.cls ++ "('" ++ String.ofList t ++ "')") (toText H chain a)
+    | 'e' => "True"                          -- a == bytes(a)
+    | 'h' => "True"                          -- hash(a) == hash(bytes(a))
+    | _ => "?"
+
+/-- one step of a history; state = selected chain and the last address object created -/
+def seqStep (acc : (ChainState × Option Addr) × List String) (step : String) :
+    (ChainState × Option Addr) × List String :=
+  let ((st, last), outs) := acc
+  let step := if step.startsWith "=" then (step.drop 1).toString else step
+  let made := fun (r : Res Addr) =>
+    match r with
+    | .ok a => ((st, some a), outs ++ [showAddr a])
+    | .error e => ((st, last), outs ++ ["err:" ++ e.family])
+  match step.splitOn ":" with
+  | ["sel", n] =>
+    let (st', e) := selectParams st n
+    ((st', last), outs ++ [match e with | none => "ok" | some e => "err:" ++ e.family])
+  | ["parse", t] =>
+    (match C10.parseText? t with
+     | some t => made (parse H st.params t)
+     | none => ((st, last), outs ++ [badArgs]))
+  | ["spk", x] =>
+    (match parseHex? x with
+     | some x => made (fromScript H160 st.params x)
+     | none => ((st, last), outs ++ [badArgs]))
+  | ["p2pkh", x, nc, bare] =>
+    (match parseHex? x, parseBool? nc, parseBool? bare with
+     | some x, some nc, some bare => made (p2pkhFromScript H160 st.params x nc bare)
+     | _, _, _ => ((st, last), outs ++ [badArgs]))
+  | ["o", obs] =>
+    ((st, last), outs ++ [match last with | some a => observe st.params a obs | none => "none"])
+  | _ => ((st, last), outs ++ [badArgs])
+
 def handle (op : String) (args : List String) : Option String :=
   match op, args with
+  -- a history of selections, conversions and observations in one process (starts after the harness's
+  -- reset call SelectParams('mainnet')); every step answers from the selected chain alone
+  -- direct from_bytes calls of the address classes: cls ∈ B58 P2SH P2PKH (ver = nVersion or "none") and
+  -- B32 P2WSH P2WPKH (ver = witver; the two subclasses inherit CBech32BitcoinAddress.from_bytes)
+  | "c12.frombytes", [hist, cls, ver, data] => some <| match parseHex? data with
+      | none => badArgs
+      | some d =>
+        let chain := chainOf hist
+        let v? : Option (Option Int) := if ver == "none" then some none else (parseInt? ver).map some
+        (match cls, v? with
+         | "B58", some (some v) => showFull chain (base58FromBytes chain d v)
+         | "P2SH", some v => showFull chain (subclassFromBytes chain chain.scriptAddr d v)
+         | "P2PKH", some v => showFull chain (subclassFromBytes chain chain.pubkeyAddr d v)
+         | "B32", some (some v) | "P2WSH", some (some v) | "P2WPKH", some (some v) =>
+             if v < 0 then badArgs else showFull chain (bech32FromBytes v.toNat (d.map UInt8.toNat))
+         | _, _ => badArgs)
+  | "c12.seq", steps => some <|
+      let init : (ChainState × Option Addr) × List String := ((runHistory ["mainnet"], none), [])
+      joinWith " ; " (steps.foldl seqStep init).2
   -- the state a history leaves, and the outcome of every call
   | "c12.select", [hist] => some <|
       let names := histNames hist
